@@ -102,8 +102,9 @@ func (cb *CircuitBreaker) IOHandler(ctx context.Context, request []byte, next co
 			err = core.NewPanicError(e)
 		}
 		if err != nil {
-			atomic.AddUint64(&cb.failCount, 1)
+			// the time first: a caller that sees the new count must not pair it with the old time
 			atomic.StoreInt64(&cb.lastFailTime, time.Now().UnixNano())
+			atomic.AddUint64(&cb.failCount, 1)
 		}
 	}()
 	response, err = next(ctx, request)
